@@ -3,6 +3,7 @@ import XModel.Manager
 import XModel.Acyclic
 import XModel.ManagerC13
 import XModel.ManagerFn
+import XModel.ManagerC17
 /-! JSON codec shared by the driver suites (Appendix A of DESIGN.md).  Total: malformed input is
     `none`, never defaulted. -/
 namespace Codec
